@@ -3,6 +3,7 @@ import Mathlib.Tactic.Ring
 import Mathlib.Tactic.NormNum.Prime
 import Extracted.Guards
 import Extracted.Consts
+import Proofs.E1Codec
 
 /-! # C01 — BLS Verify accepts exactly the one signature `sk • H(m)` per key, message, hasher
 
@@ -119,6 +120,31 @@ theorem tie_guards (len size : Int) :
     Extracted.Consts.crypto_SignatureLenBLSBLS12381 = 48 := by
   refine ⟨rfl, rfl, rfl, rfl, by decide, by decide, by decide⟩
 
+/-! ### the `Codec` laws assumed above hold for the executable model of `E1_read_bytes` / `E1_write_bytes` -/
+
+/-- the three laws of the structure `Codec` (`dec_enc`, `enc_dec`, `len`), proved for `Model.Bls.readE1` /
+    `Model.Bls.writeE1` on the reduced points of the curve (the model the correspondence run compares with the
+    C functions): they are theorems about the concrete byte format, not assumptions -/
+theorem concrete_codec_laws :
+    (∀ Q : Model.Bls.P1, Proofs.E1Codec.Valid Q → Model.Bls.readE1 (Model.Bls.writeE1 Q) = .ok Q) ∧
+    (∀ (b : Model.Bytes) (Q : Model.Bls.P1), Model.Bls.readE1 b = .ok Q →
+        Model.Bls.writeE1 Q = b ∧ Proofs.E1Codec.Valid Q) ∧
+    (∀ (b : Model.Bytes) (Q : Model.Bls.P1), Model.Bls.readE1 b = .ok Q → b.length = 48) := by
+  refine ⟨Proofs.E1Codec.e1_roundtrip, ?_, ?_⟩
+  · intro b Q h
+    exact ⟨Proofs.E1Codec.e1_canonical b Q h, Proofs.E1Codec.e1_accepts_valid b Q h⟩
+  · intro b Q h
+    unfold Model.Bls.readE1 at h
+    split at h
+    · cases h
+    · omega
+
+/-- **one encoding per signature point**: two byte strings that `E1_read_bytes` maps to the same point are the
+    same byte string, so a valid signature has exactly one accepted encoding -/
+theorem signature_encoding_unique (b b' : Model.Bytes) (Q : Model.Bls.P1)
+    (h : Model.Bls.readE1 b = .ok Q) (h' : Model.Bls.readE1 b' = .ok Q) : b = b' :=
+  Proofs.E1Codec.e1_unique_encoding b b' Q h h'
+
 /-! ### non-vacuity: the hypotheses are satisfiable (toy instance: G1 = G2 = GT = ZMod 7, E1 = ZMod 7 × ZMod 3) -/
 
 instance : Fact (Nat.Prime 7) := ⟨by norm_num⟩
@@ -163,5 +189,7 @@ end Props.C01
 #print axioms Props.C01.identity_key_rejects_all
 #print axioms Props.C01.hasher_guard
 #print axioms Props.C01.tie_guards
+#print axioms Props.C01.concrete_codec_laws
+#print axioms Props.C01.signature_encoding_unique
 #print axioms verifyCore_iff
 #print axioms pairingCheck_iff
